@@ -121,6 +121,9 @@ func (fc *FnCtx) Generate() (err error) {
 	// SSA value is defined), so that a later access through the same value is an access after the hand-off
 	fc.sentOf = map[ssa.Value][]string{}
 	if fc.con.Opts["lockcheck"] != "" {
+		fc.ghostSort["handedobj"] = arrSort(sBool)
+		fc.ghost["handedobj"] = "((as const (Array Int Bool)) false)"
+		fc.ghost0["handedobj"] = "((as const (Array Int Bool)) false)"
 		k := 0
 		for _, b := range fc.fn.Blocks {
 			for _, in := range b.Instrs {
@@ -858,6 +861,18 @@ func (fc *FnCtx) computeLoopMods(li *loopInfo) {
 					li.modRegs["ghost."+st.name] = true
 				}
 			}
+			switch x := in.(type) {
+			case *ssa.Send:
+				if _, isPtr := x.X.Type().Underlying().(*types.Pointer); isPtr {
+					li.modRegs["ghost.handedobj"] = true
+				}
+			case *ssa.Select:
+				for _, st := range x.States {
+					if st.Dir == types.SendOnly {
+						li.modRegs["ghost.handedobj"] = true
+					}
+				}
+			}
 		}
 	}
 }
@@ -1100,6 +1115,8 @@ func (fc *FnCtx) anchorOf(in ssa.Instruction) (string, string, bool) {
 		return "select", fc.srcText(x.Pos()), true
 	case *ssa.MakeSlice:
 		return "make", fc.srcText(x.Pos()), true
+	case *ssa.Next:
+		return "next", fc.nextText(x), true
 	case *ssa.UnOp:
 		if x.Op == token.ARROW {
 			return "recv", fc.srcText(x.Pos()), true
